@@ -171,7 +171,8 @@ class Transform:
         return inv
 
     def copy(self):
-        return Transform(matrix=self.matrix)
+        # a new array: the constructor stores what it is passed
+        return Transform(matrix=self.matrix.copy())
 
     @caching.cache_decorator
     def is_identity(self):
